@@ -727,6 +727,10 @@ func (e *Eng) evalCall(n *ECall, env *Env, cur, old *State) *Val {
 		fn := "implements_" + typeKey(t)
 		e.sc.declare(fn, fmt.Sprintf("(declare-fun %s (Int) Bool)", fn))
 		return bval(and(not(eq(a.T, "0")), sx(fn, sx("typeof", a.T))))
+	case "arr":
+		// arr(s): identity of the backing array of a slice (an integer; two slices over one array share it)
+		as := args()
+		return ival(sx("s_arr", as[0].T))
 	case "zeromap":
 		return &Val{T: "((as const (Array Int Int)) 0)", Sort: "(Array Int Int)", KnownLen: -1}
 	case "inTree":
